@@ -32,10 +32,20 @@ func vUniteSetup(timed bool) *vUniteEnv {
 	}
 	in := make(chan []int, capIn)
 	for i := 0; i < K; i++ {
-		n := vChoose("len", JS+2)
+		n := 0
+		large := JS > 16
+		if large {
+			// a LARGE JoinSize (thresholds such as pre-allocation caps): lengths around the boundaries, concrete elements
+			n = []int{0, 1, JS / 2, JS - 1, JS, JS + 1}[vChoose("len", 6)]
+		} else {
+			n = vChoose("len", JS+2)
+		}
 		s := make([]int, 0, n)
 		for j := 0; j < n; j++ {
-			x := vNondetInt("x")
+			x := len(e.flat) + 1
+			if !large {
+				x = vNondetInt("x")
+			}
 			s = append(s, x)
 			e.flat = append(e.flat, x)
 		}
